@@ -282,6 +282,9 @@ pub fn run(ctx: &Ctx, rep: &mut Report) {
         r.stderr.chars().take(200).collect::<String>(),
         calls.iter().map(|c| c.method.as_str()).filter(|m| matches!(*m, "walletprocesspsbt" | "sendrawtransaction" | "finalizepsbt" | "simulaterawtransaction")).collect::<Vec<_>>(),
       );
+      if rep.want_sample() {
+        rep.sample(json!({"offer": describe, "clauses_that_fail": failing, "signed": signed, "broadcast": broadcast}));
+      }
       if failing.is_empty() {
         rep.count("offers_satisfying_every_clause");
         if signed {
